@@ -6,24 +6,20 @@ import Obao.Proofs.PKIIssueLemmas
 C15 — issued certificates respect issuer, role and lifetime constraints.  Property theorems over the models
 `Obao.PKI` (names), `Obao.PKIValidity` (lifetimes), `Obao.PKIIssue` (the request pipeline); helper lemmas
 are in `Obao/Proofs/PKI*.lean`.  Where the unchanged code does not meet the full statement the full statement
-is kept as a `def …_full : Prop`, the strongest true form is proved as `…_partial` and the negation as `…_cex`.
+is kept as a `def …_full : Prop`, the strongest true form is proved as `…_partial` and the negation as `…_cex`
+(none left for C15 after the repairs of findings F13, F14, F15).
 -/
 namespace C15
 open Obao.PKI Obao.PKIValidity Obao.PKIIssue
 
 /-! ## names -/
 
-/-- FULL statement: the string implementation accepts only names the label-level reading of the role allows. -/
-def names_impl_sound_full : Prop :=
-  ∀ (r : NameRole) (n : Str), (r.allowTokenDisplayName = true → r.displayName ≠ []) →
-    validateName r n = true → nameAllowed r n
-
-/-- What holds for the unchanged code, for every role and every string: an accepted name is allowed by the
-label-level reading (`"." ++ domain` suffix test ⇒ proper label suffix; bare / glob / display-name /
-localhost rules), or it is a wildcard over `localhost`/`localdomain` under a role without `allow_subdomains`. -/
-theorem names_impl_sound_partial (r : NameRole) (n : Str)
+/-- For every role and every string: a name the string implementation accepts is allowed by the label-level
+reading of the role (`"." ++ domain` suffix test ⇒ proper label suffix; bare / glob / display-name / localhost
+rules; a wildcard over localhost needs `allow_subdomains` — repair of finding F14). -/
+theorem names_impl_sound (r : NameRole) (n : Str)
     (hdn : r.allowTokenDisplayName = true → r.displayName ≠ []) (h : validateName r n = true) :
-    nameAllowed r n ∨ wildcardLocalhost r n :=
+    nameAllowed r n :=
   validateName_sound r n hdn h
 
 def exRole : NameRole :=
@@ -40,28 +36,12 @@ def cexRole : NameRole :=
     allowLocalhost := true, allowAnyName := false, enforceHostnames := true, allowTokenDisplayName := false,
     displayName := [], cnValidations := [] }
 
-/-- The unchanged code violates the full statement: `*.localhost` is accepted by a role that has
-`allow_subdomains = false` (finding: wildcard-localhost-without-subdomains). -/
-theorem names_impl_sound_cex : ¬ names_impl_sound_full := by
-  intro hfull
-  have hacc : validateName cexRole (str "*.localhost") = true := by decide
-  obtain ⟨sh, hshape, _, hrule⟩ := hfull cexRole (str "*.localhost") (by intro h; cases h) hacc
-  have hhost : sh.host = str "*.localhost" := by
-    rcases hshape with ⟨_, hh, _⟩ | ⟨_, loc, hname, _, _⟩
-    · exact hh
-    · have : containsCh (str "*.localhost") '@' = true := by
-        rw [hname, containsCh_append, containsCh_cons]; simp
-      exact absurd this (by decide)
-  rw [hhost] at hrule
-  have hl : labels (str "*.localhost") = [['*'], localhost] := by decide
-  rw [hl] at hrule
-  rcases hrule with h | ⟨_, h | h | ⟨h, _⟩⟩ | ⟨h, _⟩ | ⟨d, hd, _⟩
-  · cases h
-  · exact absurd h (by decide)
-  · exact absurd h (by decide)
-  · cases h
-  · cases h
-  · cases hd
+/-- the shape of finding F14: `*.localhost` under `allow_localhost` is refused without `allow_subdomains` and
+accepted with it; `localhost` itself and `user@localhost` are accepted either way -/
+example : validateName cexRole (str "*.localhost") = false := by decide
+example : validateName { cexRole with allowSub := true } (str "*.localhost") = true := by decide
+example : validateName cexRole (str "localhost") = true := by decide
+example : validateName { cexRole with enforceHostnames := false } (str "user@localhost") = true := by decide
 
 /-- When `validateNames` reports no bad name, every name of the list passed `validateName` — and none of them is
 empty: an empty name is refused with the non-empty marker `""` (repair of finding F13; before it, a refused
@@ -120,13 +100,11 @@ theorem email_wildcard_refused (r : NameRole) (loc host : Str) (hl : containsCh 
 example : validateName { cexRole with allowAnyName := true } (str "user@*.ex.com") = false := by decide
 
 /-- `enforce_hostnames` still applies under `allow_any_name` (and under every other switch): the host part of
-an accepted name is made of LDH labels (the leftmost one may carry the wildcard) — except, as the code
-behaves, when the part that is checked is empty: an empty host (`""`, `user@`) or a wildcard label followed
-by a bare dot (`*.`). -/
+every accepted name is made of LDH labels, the leftmost one possibly carrying the wildcard — no exception
+(an empty e-mail domain `user@` and a wildcard label followed by a bare dot `*.` are refused: repair of
+finding F15). -/
 theorem anyname_still_enforces_hostnames (r : NameRole) (n : Str) (he : r.enforceHostnames = true)
-    (h0 : validateName r n = true) :
-    ∃ sh, shapeOf n sh ∧
-      (sh.host = [] ∨ hostShape sh.host ∨ (∃ w, sh.host = w ++ ['.'] ∧ leftWildLabel w = true)) := by
+    (h0 : validateName r n = true) : ∃ sh, shapeOf n sh ∧ hostShape sh.host := by
   have h := (validateName_body h0).2
   unfold validateNameBody at h
   split at h
@@ -140,19 +118,27 @@ theorem anyname_still_enforces_hostnames (r : NameRole) (n : Str) (he : r.enforc
     · rename_i w reduced hwild
       split at h
       · simp at h
-      · split at h
+      · rename_i hew
+        have hnm : containsCh r0 '*' = true → n = r0 := by
+          intro hc
+          rcases hshape with ⟨_, hh, _⟩ | ⟨hem, _⟩
+          · exact hh.symm
+          · simp at hem
+            simp [hem, hc] at hew
+        split at h
         · simp at h
         · rename_i hok
           simp only [he, Bool.true_and, Bool.not_eq_true', Bool.not_eq_false] at hok
-          have hok' : hostnameOK reduced w (containsCh r0 '*') = true := by
-            cases hq : hostnameOK reduced w (containsCh r0 '*') with
+          have hok' : hostnameOK n reduced w (containsCh r0 '*') = true := by
+            cases hq : hostnameOK n reduced w (containsCh r0 '*') with
             | true => rfl
             | false => simp [hq] at hok
           cases hc : containsCh r0 '*' with
           | false =>
             rw [hc] at hwild hok'
             simp at hwild
-            exact hostnameOK_shape (Or.inl ⟨rfl, hwild.2.symm⟩) hc.symm (by intro hh; simp at hh) hok'
+            exact hostnameOK_shape (Or.inl ⟨rfl, hwild.2.symm⟩) hc.symm (by intro hh; simp at hh)
+              (by intro hh; simp at hh) hok'
           | true =>
             rw [hc] at hwild hok'
             simp at hwild
@@ -170,8 +156,11 @@ theorem anyname_still_enforces_hostnames (r : NameRole) (n : Str) (he : r.enforc
                     simp at hv
                     rw [← hv.2]
                     simpa using hrest
-            exact hostnameOK_shape f1 hc.symm (fun _ => ⟨f4, hrs⟩) hok'
+            exact hostnameOK_shape f1 hc.symm (fun _ => ⟨f4, hrs⟩) (fun _ => hnm hc) hok'
 
+example : validateName { cexRole with allowAnyName := true } (str "user@") = false := by decide
+example : validateName { cexRole with allowAnyName := true } (str "*.") = false := by decide
+example : validateName { cexRole with allowAnyName := true } (str "*") = true := by decide
 example : validateName { cexRole with allowAnyName := true } (str "a_b.ex.com") = false := by decide
 example : validateName { cexRole with allowAnyName := true, enforceHostnames := false } (str "a_b.ex.com") = true := by decide
 
@@ -322,17 +311,17 @@ theorem leaf_unless_ca_endpoint (e : Env) (role : Role) (req : Req) (c : Cert)
 /-! ## end to end: the names in an issued certificate -/
 
 /-- Every DNS and e-mail SAN of a certificate from issue/<role> or sign/<role> is allowed by the label-level
-reading of the role (up to the wildcard-localhost exception of `names_impl_sound_partial`, finding F14) — for
+reading of the role — for
 every role, request and CSR, CSRs with empty SAN entries included (those are refused since the repair of F13). -/
 theorem issued_names_allowed (e : Env) (role : Role) (req : Req) (c : Cert) (hep : req.ep ≠ .verbatim)
     (hdn : role.names.allowTokenDisplayName = true → role.names.displayName ≠ [])
     (h : process e role req = .ok c) :
-    ∀ n, n ∈ c.dns ∨ n ∈ c.emails → nameAllowed role.names n ∨ wildcardLocalhost role.names n := by
+    ∀ n, n ∈ c.dns ∨ n ∈ c.emails → nameAllowed role.names n := by
   have hv : (req.ep == Endpoint.verbatim) = false := by
     cases hq : req.ep <;> simp_all
   have key : ∀ (nm : Names) key ips uris v, buildNames role req = .ok nm →
       ∀ n, n ∈ (finish e role req key nm ips uris v).dns ∨ n ∈ (finish e role req key nm ips uris v).emails →
-        nameAllowed role.names n ∨ wildcardLocalhost role.names n := by
+        nameAllowed role.names n := by
     intro nm key ips uris v hb n hn
     obtain ⟨hd, hem⟩ := buildNames_ok hb
     unfold finish at hn
